@@ -41,9 +41,8 @@ def finish(prop, tier, seed, info, reports, dead, wall, replaying=False):
     for (k, rc, tail) in dead:
         inconc.append('shard %s ended with %s: %s' % (k, rc, tail[-600:]))
     # minimum-observation rules: a deciding monitor that was never reached
-    # (thorough tiers do at least ~9x the work of the quick tier: they must
-    # reach three times the quick minimum; the quick minimum itself is well
-    # below what the count-bounded quick workload produces)
+    # (the same minima for both tiers: several deciding counters belong to
+    # fixed enumerations that do not grow with the budget)
     required = dict(info.get('require', {}).get('quick', {}))
     # calibrated minima (tools/calibrate.py: 40 % of what the count-bounded
     # quick workload produced on an idle machine), where available
@@ -55,8 +54,6 @@ def finish(prop, tier, seed, info, reports, dead, wall, replaying=False):
                 required[k] = cal[k]
     except (OSError, ValueError):
         pass
-    if tier != 'quick':
-        required = dict((k, 3 * v) for k, v in required.items())
     for name, minimum in required.items():
         if counters.get(name, 0) < minimum and not replaying:
             inconc.append('monitor counter %s = %d < required %d' % (
